@@ -1,7 +1,7 @@
 (* extract/Extract.v — extraction of executable model functions for volume differential runs.
    Only ExtrOcamlBasic's directives (bool, option, unit, list, prod, sumbool -> OCaml natives);
    Z / positive / N stay as extracted inductives. No Extract Constant. *)
-From Verif Require Import U64 Spice.
+From Verif Require Import U64 Spice Handlers.
 Require Extraction.
 Require Import ExtrOcamlBasic.
-Extraction "model.ml" supply transfer mnew canonb.
+Extraction "model.ml" supply transfer mnew canonb hcase_ok.
